@@ -159,15 +159,6 @@ def run_case(case):
     return obs
 
 
-def probe_select_box(case):
-    """Diagnostic only (no verdict): does rect_io.select_box, which rebuilds the corners as centre -/+ size/2,
-    return cells that still share their corner coordinates?  -> [distinct x, distinct y] it produces."""
-    from tools.rect.rect_io import select_box
-    _emb, _cells, ifile = _embed(dict(case, path="select_box"))
-    ip, _ = select_box("M", ifile)
-    return [len({c[0] for c in ip} | {c[2] for c in ip}), len({c[1] for c in ip} | {c[3] for c in ip})]
-
-
 # ------------------------------------------------------------------------------------------------ planning
 def _grid_cells(xs, ys, occ):
     return [[xs[i], ys[j], xs[i + 1], ys[j + 1], occ[j * (len(xs) - 1) + i]]
@@ -251,7 +242,7 @@ def random_cases(rng: random.Random, n: int, tier: str) -> list[dict]:
         k = (rng.choice([1, 2, 3, 3, 4]) if ncell <= 9 else rng.choice([1, 2, 3, 3]) if ncell <= (12 if tier == "quick" else 16)
              else rng.choice([1, 2, 2]))
         emb = rng.choice(ALL)
-        path = "select_box" if emb in EXACT and rng.random() < 0.5 else "direct"
+        path = "select_box" if rng.random() < 0.5 else "direct"
         fr = F(FACTOR[emb]) * EMBEDDINGS[emb].step ** 2
         best = _plan_best(cells, k, den, fr)
         if best is None:
@@ -273,21 +264,22 @@ def tlc_cases(gen: list[dict], tier: str, rng: random.Random) -> list[dict]:
     for g in gen:
         base = {"kind": g["kind"], "cells": g["cells"], "k": g["k"], "den": g["den"]}
         if g["kind"] == "models":
-            # the whole model set (vacuous bound) under every embedding; select_box path where centre/size is exact
+            # the whole model set (vacuous bound) under every embedding, cells given as corners (direct) and as
+            # centre/size documents through rect_io.select_box
             occ = [(c[0] + 2 * c[1]) % (g["den"] + 1) for c in g["cells"]]
             if not any(occ):
                 occ[0] = g["den"]
             cells = [c[:4] + [o] for c, o in zip(g["cells"], occ)]
             for en in ALL:
                 cases.append(dict(base, cells=cells, emb=en, path="direct", plan=["single", VACUOUS]))
-            for en in ("int", "half"):
+            for en in ALL:
                 cases.append(dict(base, cells=cells, emb=en, path="select_box", plan=["single", VACUOUS]))
             cases.append(dict(base, cells=cells[::-1], emb="flt", path="direct", plan=["single", VACUOUS]))
         else:
             si += 1
             embs = [ALL[si % len(ALL)]] if tier == "quick" or len(g["cells"]) >= 9 else [ALL[si % len(ALL)], ALL[(si + 3) % len(ALL)]]
             for en in embs:
-                path = "select_box" if en in EXACT and si % 3 == 0 else "direct"
+                path = "select_box" if si % 3 == 0 else "direct"
                 if g["nshapes"] == 0:
                     cases.append(dict(base, emb=en, path=path, plan=["single", 0]))
                     continue
@@ -316,8 +308,17 @@ def _features(case, clause):
     intsize = int(float(emb.length(x1 - x0)).is_integer() and float(emb.length(y1 - y0)).is_integer())
     # do the literals enforce_bb compares with (0, int(Width), int(Height)) coincide with the grid's border?
     lit = int(fx0 == 0 and fy0 == 0 and fx1 == int(emb.length(x1 - x0)) and fy1 == int(emb.length(y1 - y0)))
+    # do the corners select_box rebuilds (centre -/+ size/2) of neighbouring cells still coincide as floats?
+    shared = 1
+    if case["path"] == "select_box":
+        rs = [emb.rect(c) for c in case["cells"]]
+        nx = len({c[0] for c in case["cells"]} | {c[2] for c in case["cells"]})
+        ny = len({c[1] for c in case["cells"]} | {c[3] for c in case["cells"]})
+        gx = {r[0] - float(r[2]) / 2 for r in rs} | {r[0] + float(r[2]) / 2 for r in rs}
+        gy = {r[1] - float(r[3]) / 2 for r in rs} | {r[1] + float(r[3]) / 2 for r in rs}
+        shared = int(len(gx) == nx and len(gy) == ny)
     return {"clause": clause, "embedding": case["emb"], "k": case["k"], "path": case["path"], "origin0": origin0,
-            "integer_size": intsize, "border_literals_match_grid": lit}
+            "integer_size": intsize, "border_literals_match_grid": lit, "shared_corners": shared}
 
 
 def decide(ctx: Ctx, cases: list[dict]):
@@ -389,6 +390,22 @@ def decide(ctx: Ctx, cases: list[dict]):
     ctx.extra["models_enumerated"] = sum(len(e["models"]) * len(owners[k]) for k, t in traces.items() for e in t["events"])
 
 
+def _model_check(ctx: Ctx, cfg: str, ignore=()):
+    """tlc.model_check, with the vacuity rule applied to TLC's FINAL coverage dump only: with -coverage 1 TLC also
+    prints interim dumps every minute, in which actions deeper than the current BFS level still count 0 (a run
+    longer than a minute would otherwise be reported as vacuous)."""
+    res = tlc.run_tlc(ctx, "RectSearch", cfg, coverage=True, tag="mc")
+    ctx.states += res["distinct"]
+    ctx.transitions += res["generated"]
+    final = {}
+    for name, cnt, _d in res.get("coverage", []):
+        final[name] = cnt                      # later dumps overwrite earlier ones
+    zero = sorted(n for n, c in final.items() if c == 0 and n != "Init" and n not in ignore)
+    if zero:
+        raise MachineryError(f"vacuous model: actions never taken in RectSearch/{cfg}: {zero}")
+    return res
+
+
 def run(ctx: Ctx) -> int:
     if ctx.replay:
         rec = json.load(open(ctx.replay))
@@ -397,10 +414,9 @@ def run(ctx: Ctx) -> int:
         decide(ctx, [c])
         return ctx.finish("model_checking", "replay of one recorded case")
     tier = ctx.tier
-    tlc.model_check(ctx, "RectSearch", f"RectSearch_mc_{tier}", vacuity_ignore=("EmitGrid", "EmitSolve"))
+    _model_check(ctx, f"RectSearch_mc_{tier}", ignore=("EmitGrid", "EmitSolve"))
     if tier == "thorough":
-        tlc.model_check(ctx, "RectSearch", "RectSearch_mc_k4",
-                        vacuity_ignore=("EmitGrid", "EmitSolve", "Start", "Call", "Iterate", "Stop"))
+        _model_check(ctx, "RectSearch_mc_k4", ignore=("EmitGrid", "EmitSolve", "Start", "Call", "Iterate", "Stop"))
     # negative run: the border exclusions as implemented today break EncSound at the design level
     neg = tlc.run_tlc(ctx, "RectSearch", "RectSearch_mc_defect", expect_ok=False, tag="negative")
     if "Invariant EncSound is violated" not in neg["stdout"]:
@@ -417,15 +433,6 @@ def run(ctx: Ctx) -> int:
     n_tlc = len(cases)
     cases += random_cases(rng, 150 if tier == "quick" else 1000, tier)
     decide(ctx, cases)
-    # diagnostic (not a verdict): the centre/size path under inexact embeddings
-    grids = [g for g in gen if g["kind"] == "models" and g["k"] == 1]
-    probes = [dict(cells=g["cells"], den=g["den"], k=1, emb=en) for g in grids for en in ALL if en not in EXACT]
-    bad = 0
-    for pc, (st, val) in zip(probes, run_cases(probe_select_box, probes, nproc=8)):
-        nx = len({c[0] for c in pc["cells"]} | {c[2] for c in pc["cells"]})
-        ny = len({c[1] for c in pc["cells"]} | {c[3] for c in pc["cells"]})
-        bad += int(st != "ok" or val != [nx, ny])
-    ctx.extra["select_box_inexact_probe"] = {"grid_x_embedding": len(probes), "corners_no_longer_shared": bad}
     ctx.extra["embeddings"] = ALL
     ctx.extra["cases_from_tlc"] = n_tlc
     ctx.extra["cases_random"] = len(cases) - n_tlc
@@ -433,7 +440,7 @@ def run(ctx: Ctx) -> int:
         "float dimension sampled by 8 embeddings of the integer lattice (steps 1, 1.0, 1/2, 1/10, 1/3, 1e3, 1e-3, 0.1+37.3), not enumerated",
         "rect.Carrier() cannot be constructed on Linux (Windows DLL): the carrier is a SimpleNamespace with the same fields, filled by the real definecoords(); ifile['Width'/'Height'] = bounding box of the grid, as get_alloc() computes it",
         "minimum-error mode: ratio 2.0; a module to normalise occupies something (all-zero occupancy is outside the quantifier: main() never asks for it and solve() divides by the total occupied area)",
-        "cells of one grid share their corner coordinates exactly (the grid enforce_bb sees); the centre/size path through select_box is exercised for embeddings whose halves are exact (int, flt, half, big)",
+        "grids are given both as corner tuples (input_problem, corners shared exactly) and as centre/size documents through rect_io.select_box (what get_alloc() produces from an allocation file), under every embedding",
         "cost = ratio * occupied area - area over the integer cell weights rect.area() returns; the weights themselves are checked against the lattice areas up to the int() truncation",
     ]
     return ctx.finish(
